@@ -692,6 +692,10 @@ static int _parse_inline(qaconf_t *qaconf, FILE *fp, uint8_t flags,
                 sp++;
             } else {
                 cbdata->otype = QAC_OTYPE_SECTIONOPEN;
+                // level is a 8 bit counter and each level is a recursion.
+                if (cbdata->level == UINT8_MAX) {
+                    EXITLOOP("Sections are nested too deeply. - '%s'.", buf);
+                }
             }
 
             // Remove tailing bracket
